@@ -143,6 +143,7 @@ def impl(case):
     obs["out_lines"] = sorted(l for l in body.splitlines() if not l.startswith("#"))
     obs["in_lines"] = sorted(l for l in text.splitlines() if not l.startswith("#"))
     obs["bytes_kept_when_unsorted"] = True if case["sort"] else (body == text)
+    obs["hr_order"] = [l.split("\t")[4] for l in body.splitlines() if l.startswith(("H\t", "R\t"))]
     try:
         tb = pysam.TabixFile(str(out))
         obs["tabix_contigs"] = sorted(tb.contigs)
@@ -169,18 +170,29 @@ def model_req(case):
     if not case["sort"] and case["nosort_layout"] == "k2":
         order = sorted(recs, key=lambda r: (r["chrom"], r["start"], r["end"]))
     ididx = {r["id"]: i for i, r in enumerate(recs)}
+    # Haplotypes.sort(): contig names and IDs enter the comparator through their rank in Python's string order
+    crank = {c: i for i, c in enumerate(sorted({r["chrom"] for r in recs}))}
+    irank = {x: i for i, x in enumerate(sorted(r["id"] for r in recs))}
+    sort_req = {"op": "hapSort", "recs": [[crank[r["chrom"]], r["start"], r["end"], irank[r["id"]]] for r in recs]}
+    return {"op": "batch", "reqs": [sort_req, _query_req(case, recs, order, cidx, ididx)]}
+
+
+def _query_req(case, recs, order, cidx, ididx):
     return {"op": "hapQuery", "recs": [[cidx[r["chrom"]], r["start"], r["end"], ididx[r["id"]]] for r in order], "queries": [{"c": None if q["c"] is None else cidx[q["c"]], "lo": q["lo"], "hi": q["hi"], "ids": None if q["ids"] is None else [ididx[i] for i in q["ids"] if i in ididx]} for q in case["queries"]]}
 
 
 def model_obs(case, resp):
     recs = case["recs"]
-    return {"ids": [sorted(recs[i]["id"] for i in r) for r in resp["results"]]}
+    byrank = sorted(r["id"] for r in recs)
+    return {"ids": [sorted(recs[i]["id"] for i in r) for r in resp["resps"][1]["results"]], "hr_order": [byrank[i] for i in resp["resps"][0]["order"]] if case["sort"] else None}
 
 
 def equal(a, b):
     if "error" in a:
         return False
     got = [sorted(x[0] for x in r) if isinstance(r, list) else r for r in a["results"]]
+    if b.get("hr_order") is not None and a.get("hr_order") != b["hr_order"]:
+        return False  # the H/R lines of the sorted file are not in the order of the modelled sort
     return C.canon(got) == C.canon(b["ids"])
 
 
@@ -227,7 +239,7 @@ def describe(case, obs):
 CHECK = Check(
     id="C11",
     title="index keeps every record; indexed queries equal filtering a full read",
-    theorems=["C11.sorted_is_tabix_ok", "C11.region_query_eq_filter", "C11.region_ab_eq_filter", "C11.ids_only_query"],
+    theorems=["C11.sort_keeps_every_record", "C11.comparator_strict_total", "C11.sorted_records_tabix_ok", "C11.sorted_is_tabix_ok", "C11.region_query_eq_filter", "C11.region_ab_eq_filter", "C11.ids_only_query"],
     sections=[
         Section(
             name="index_and_query",
